@@ -513,6 +513,40 @@ def c15_run(rep, rng, tier, term):
             viol.append({'oracle': 'C15.parsable', 'case': payload, 'msg': 'parsable(%r) = %s, independent grammar says %s' % (t, p1, independent_parsable(t))})
         if t.isascii() and (bool(a[0]), bool(a[1])) != (v1, p1):
             div.append({'case': payload, 'what': 'valid/parsable', 'impl': [v1, p1], 'model': [bool(a[0]), bool(a[1])]})
+    # the flags belong to the TEXT: the same text reached through the other constructor forms (list / tuple of pieces,
+    # ints, a copy of a setting whose flags were or were not evaluated yet) carries the same flags
+    pick = [t for t in cases if t and t.isascii()]
+    pick = pick[::max(1, len(pick) // (1500 if tier == 'quick' else 20000))] + [t for t in more if t and t.isascii()] + ['1;4m', '4m;1', 'H', '1~', '1;@', '31;1']
+    for t in pick:
+        forms = []
+        parts = t.split(';')
+        forms.append(('list of str', lambda: AnsiSetting(list(parts))))
+        forms.append(('tuple of str', lambda: AnsiSetting(tuple(parts))))
+        if all(p.isdigit() for p in parts):
+            forms.append(('list of int', lambda: AnsiSetting([int(p) for p in parts])))
+            if len(parts) == 1:
+                forms.append(('int', lambda: AnsiSetting(int(parts[0]))))
+        def copy_after():
+            a = AnsiSetting(t); a.valid; a.parsable
+            return AnsiSetting(a)
+        def copy_of_list_form():
+            a = AnsiSetting(list(parts)); a.valid
+            return AnsiSetting(a)
+        forms += [('copy (flags evaluated before)', copy_after), ('copy (flags not evaluated)', lambda: AnsiSetting(AnsiSetting(t))),
+                  ('copy of the list form', copy_of_list_form)]
+        for fname, mk in forms:
+            r = call(mk)
+            payload = {'text': t, 'constructor': fname}
+            rep.count(payload, True)
+            if r[0] != 'ok':
+                continue            # an empty text is refused by the constructor
+            st = r[1]
+            tx = str(st)
+            if st.valid != independent_valid(tx) or st.parsable != independent_parsable(tx):
+                viol.append({'oracle': 'C15.constructor', 'case': payload,
+                             'msg': 'AnsiSetting built as %s has text %r with valid=%s parsable=%s; the text alone gives valid=%s parsable=%s'
+                                    % (fname, tx, st.valid, st.parsable, independent_valid(tx), independent_parsable(tx))})
+                break
     # generated settings are valid and parsable
     for name, m in AnsiFormat.__members__.items():
         rep.count({'member': name}, True)
@@ -978,6 +1012,39 @@ def c12fmt_run(rep, rng, tier, term):
             got = call(lambda: format(o, bad))
             if got != ('err', 'ValueError'):
                 viol.append({'oracle': 'C12.format.error', 'case': payload, 'msg': 'format(s, %r) %s, expected ValueError' % (bad, got)})
+    # values WITHOUT any setting take their own early path in to_str; widths with leading zeros and specs that Python's
+    # own str.__format__ would accept with another meaning (precision, type character, non-ASCII digits, '=' alignment,
+    # grouping) must behave exactly as for styled values: the documented grammar, nothing more
+    fixed = [('AnsiString()', AnsiString('')), ("AnsiString('ab')", AnsiString('ab')), ("AnsiStr('ab')", AnsiStr('ab')), ("AnsiStr('')", AnsiStr('')),
+             ("AnsiString('a b')", AnsiString('a b')), ("AnsiString('ab','bold')", AnsiString('ab', 'bold')), ("AnsiStr('ab','red')", AnsiStr('ab', 'red'))]
+    for (vname, v) in fixed:
+        for width in ('05', '005', '00', '010', '5', '2'):
+            for align in ('', '<', '>', '^'):
+                for fill in ('', '*', 'x', '0'):
+                    if align == '' and fill:
+                        continue
+                    for ansi in (None, 'red'):
+                        spec = fill + align + width + ('' if ansi is None else ':' + ansi)
+                        payload = {'value': vname, 'spec': spec}
+                        rep.count(payload, True)
+                        c = AnsiString(v)
+                        def ref2():
+                            f = fill if fill else ' '
+                            {'': c.ljust, '<': c.ljust, '>': c.rjust, '^': c.center}[align](int(width), f, inplace=True)
+                            if ansi:
+                                c.apply_formatting(ansi)
+                            return str(c)
+                        got, got2, want = call(lambda: format(v, spec)), call(lambda: v.to_str(spec)), call(ref2)
+                        if got != want or got2 != want:
+                            viol.append({'oracle': 'C12.format', 'case': payload,
+                                         'msg': 'format(%s, %r) %s / to_str %s, padding+apply on a copy gives %s' % (vname, spec, got, got2, want)})
+        for bad in ('.1', '5.1', 's', '5s', 'x<5s', '<\u0663', 'x>\u0661\u0660', '=5', '0=5', ',', '_', '5,', 'n', '#5', '05d', '5c', '<5.2', ' <5s', '\n<5', 'x5', '5x'):
+            payload = {'value': vname, 'spec': bad}
+            rep.count(payload, True)
+            got = call(lambda: format(v, bad))
+            got2 = call(lambda: v.to_str(bad))
+            if got != ('err', 'ValueError') or got2 != ('err', 'ValueError'):
+                viol.append({'oracle': 'C12.format.error', 'case': payload, 'msg': 'format(%s, %r) %s / to_str %s, expected ValueError (outside the grammar)' % (vname, bad, got, got2)})
     return viol, []
 
 
